@@ -47,6 +47,7 @@ func init() {
 			{ID: "C02-R24", Title: "every symbol has a slot of its own (shared with C01-R36)", Floor: 1, Run: everySymbolHasASlotOfItsOwn},
 			{ID: "C02-R25", Title: "handed-down cells are indexed by the enclosing function", Floor: 1, Run: handedDownCellsAreIndexedByTheEnclosingFunction},
 			{ID: "C02-R26", Title: "names are read from their storage (shared with C18-R25)", Floor: 3, Run: namesAreReadFromTheirStorage},
+			{ID: "C02-R27", Title: "what a table may not hold is not dereferenced (shared with C03-R42)", Floor: 1, Run: whatATableMayNotHoldIsNotDereferenced},
 		},
 	})
 }
